@@ -1,5 +1,5 @@
 (* C19 — state estimation: property theorems (proofs in C19/Proofs.v) *)
-From Coq Require Import ZArith QArith List Bool Permutation.
+From Coq Require Import ZArith QArith List Bool Permutation Lia Lqa.
 From PPV Require Import Base.QN Base.QC C19.Model C19.Proofs.
 Import ListNotations.
 Open Scope Q_scope.
@@ -9,7 +9,7 @@ Open Scope Q_scope.
 Theorem C19_merge_mask_rows_aligned : forall m1 m2,
   strictly_sorted m1 = true -> strictly_sorted m2 = true ->
   rows_P m1 m2 = rows_hx m1 /\ rows_Q m1 m2 = rows_hx m2.
-Proof. intros m1 m2 H1 H2. split; [apply rows_P_correct | apply rows_Q_correct]; assumption. Qed.
+Proof. exact merge_mask_rows_aligned. Qed.
 Print Assumptions C19_merge_mask_rows_aligned.
 
 (* the invariant is needed: an unsorted mask would misalign H and h(x) *)
@@ -40,10 +40,7 @@ Print Assumptions C19_zero_residual_rhs_zero.
 Theorem C19_zero_residual_is_global_minimum : forall ms ms',
   (forall m, In m ms -> res m == 0) -> (forall m, In m ms' -> 0 <= wgt m) ->
   objective ms == 0 /\ objective ms <= objective ms'.
-Proof.
-  intros ms ms' H W. pose proof (objective_zero_residual ms H) as A. pose proof (objective_nonneg ms' W) as B.
-  split; [exact A | rewrite A; exact B].
-Qed.
+Proof. exact zero_residual_global_minimum. Qed.
 Print Assumptions C19_zero_residual_is_global_minimum.
 
 (* with a nonsingular gain matrix the step computed by the linear solver (oracle: G d = rhs) is zero: the
@@ -76,22 +73,56 @@ Example C19_redundant_nonvacuous :
   ~ wsum zs == 0 /\ (1 # 4) * (1 # 4) == merged_var zs /\ merged_value zs == 2.
 Proof. vm_compute. repeat split; intro H; discriminate H. Qed.
 
-(* "no bad data is flagged": the chi^2 / largest-normalised-residual tests read solver.r.  Full statement: the stored
-   residual is the residual z - h(x) of the returned state.  False of the implementation (base.py:153-159 keeps the r of
-   the last pass, computed before the final update) ... *)
-Theorem C19_stored_residual_refuted :
-  exists (h : Q -> Q) z x0 steps,
-    z - h (final_state h z x0 steps) == 0 /\ ~ stored_residual h z x0 steps == z - h (final_state h z x0 steps).
-Proof. exact stored_residual_refuted. Qed.
-Print Assumptions C19_stored_residual_refuted.
+(* "no bad data is flagged": the chi^2 / largest-normalised-residual tests read solver.r.  After the repair
+   ("fix: WLS state estimation stores residual, Jacobian and gain matrix of the returned state") the stored residual is
+   the residual z - h(x) of the returned state for every iteration history, hence 0 on exact data *)
+Theorem C19_stored_residual_is_final : forall h z x0 steps,
+  stored_residual h z x0 steps == z - h (final_state h z x0 steps).
+Proof. exact stored_residual_final. Qed.
+Print Assumptions C19_stored_residual_is_final.
 
-(* ... true when the last increment is exactly zero (guard G19_last_step_zero) *)
-Theorem C19_stored_residual_partial : forall h z x0 steps,
+Theorem C19_stored_residual_zero_on_exact_data : forall h z x0 steps,
+  z == h (final_state h z x0 steps) -> stored_residual h z x0 steps == 0.
+Proof. exact stored_residual_exact_data. Qed.
+Print Assumptions C19_stored_residual_zero_on_exact_data.
+
+(* the rule before the repair (r of the last loop pass) violates it (regression witness) and was right only when the last
+   increment was exactly zero *)
+Theorem C19_stored_residual_old_refuted :
+  exists (h : Q -> Q) z x0 steps,
+    z - h (final_state h z x0 steps) == 0 /\ ~ stored_residual_old h z x0 steps == z - h (final_state h z x0 steps).
+Proof. exact stored_residual_old_refuted. Qed.
+Print Assumptions C19_stored_residual_old_refuted.
+
+Theorem C19_stored_residual_old_partial : forall h z x0 steps,
   (forall a b, a == b -> h a == h b) ->
   G19_last_step_zero steps = true ->
-  stored_residual h z x0 steps == z - h (final_state h z x0 steps).
-Proof. exact stored_residual_partial. Qed.
-Print Assumptions C19_stored_residual_partial.
+  stored_residual_old h z x0 steps == z - h (final_state h z x0 steps).
+Proof. exact stored_residual_old_partial. Qed.
+Print Assumptions C19_stored_residual_old_partial.
 
 Example C19_stored_residual_nonvacuous : G19_last_step_zero [1 # 2; 1 # 4; 0] = true.
 Proof. reflexivity. Qed.
+
+(* d^T G d = sum_i w_i (h_i . d)^2 : with positive weights G d = 0 forces h_i . d = 0 for every measurement, so for a
+   Jacobian of full column rank (observable system) the zero-residual state is a fixed point without assuming anything
+   about G itself *)
+Theorem C19_gain_quadratic_form : forall n ms d,
+  qf_l n (seq 0 n) ms d == qsum (map (fun m => qmul (wgt m) (qmul (hd n m d) (hd n m d))) ms).
+Proof. exact quadratic_form. Qed.
+Print Assumptions C19_gain_quadratic_form.
+
+Theorem C19_zero_residual_fixed_point_full_rank : forall n ms d,
+  (forall m, In m ms -> res m == 0) ->
+  (forall m, In m ms -> 0 < wgt m) ->
+  (forall j, (j < n)%nat -> gain_times n ms d j == rhs j ms) ->
+  (forall d', (forall m, In m ms -> hd n m d' == 0) -> forall k, (k < n)%nat -> nth k d' 0 == 0) ->
+  forall k, (k < n)%nat -> nth k d 0 == 0.
+Proof. exact zero_residual_fixed_point_rank. Qed.
+Print Assumptions C19_zero_residual_fixed_point_full_rank.
+
+Example C19_full_rank_nonvacuous :
+  let ms := [{| hrow := [1; 0]; wgt := 4; res := 0 |}; {| hrow := [1; 1]; wgt := 1; res := 0 |}] in
+  (forall m, In m ms -> 0 < wgt m) /\ (forall m, In m ms -> res m == 0) /\
+  (forall d', (forall m, In m ms -> hd 2 m d' == 0) -> forall k, (k < 2)%nat -> nth k d' 0 == 0).
+Proof. exact full_rank_nonvacuous. Qed.
